@@ -38,7 +38,7 @@ func runC12(c *Ctx) {
 				for _, sel := range s.F.Selects() {
 					for _, sc := range eng.SelectCases(info, sel) {
 						if sc.Kind == "recv" && eng.IsField(info, sc.Chan, "dht.IpfsDHT.addPeerToRTChan") {
-							if as, isAs := sc.Clause.Comm.(*ast.AssignStmt); isAs && eng.ObjOf(info, as.Lhs[0]) == po && eng.Contains(sc.Clause, s.Node) {
+							if as, isAs := sc.Clause.Comm.(*ast.AssignStmt); isAs && eng.ObjOf(info, as.Lhs[0]) == po && s.F.CFG().Dominates(s.F.CFG().LocOf(sc.Clause.Comm), s.F.CFG().LocOf(s.Node)) {
 								okSrc = true
 							}
 						}
